@@ -784,6 +784,11 @@ func genUI(r *rand.Rand, n int, emit func(Op)) {
 				for k := r.Intn(4); k > 0; k-- {
 					burst = append(burst, pick(r, []string{"1", "2", "j", "k", "\x1b", ":", "\x7f", "o", "1.", "2\r", " ", "h"}))
 				}
+				if r.Intn(3) == 0 {
+					/* the hook ends (well or badly, see the hook mode) in the middle of the next
+					   number or command: what was typed so far must stand */
+					burst = append(burst[:1:1], pick(r, []string{"1", "2", "1", ":", ":op", "0", "12"}), "HOOKDONE", pick(r, []string{"2\r", "1\r", "2.", "0\r", "\r", "en https://nowhere.example/x\r", "\x7f1\r"}))
+				}
 				burst = append(burst, "HOOKDONE")
 				if r.Intn(3) == 0 {
 					burst = append(burst, pick(r, []string{"j", "\x1b", "1"}), "HOOKDONE")
